@@ -319,7 +319,7 @@ Definition parse_tokens (l0 : list (list Z)) : res (option tzres) :=
                     | None => Ok None
                     | Some v =>
                       match soff with
-                      | None => Err EType
+                      | None => Ok None       (* None + int: TypeError, caught by parse() since /repo b3bd589 *)
                       | Some so => finish (Some (st, en, Some (so + v * signal),
                                                  used ++ u1 ++ u2 ++ u3 ++ [i3]))
                       end
